@@ -113,6 +113,9 @@ type Series struct {
 	// a restart that lowers the bound can bring it back as the series' newest in-order sample.
 	HasEver bool
 	EverT   int64
+	// Ghost: the newest in-order sample recorded in LastT is only possibly in the head (it came
+	// back through one of the restart rules); cleared by the next certain in-order commit.
+	Ghost bool
 	// Uncertain: after a restart the implementation may or may not hold an open head
 	// chunk for the series; appends at or below LastT are then not judged.
 	Uncertain bool
@@ -345,7 +348,9 @@ func (m *Model) Commit(a *Appender) {
 	m.StaleBeforeHist = map[int]bool{}
 	for i, p := range a.Pending {
 		s := m.Series[p.S]
-		if p.V.Kind == KStale && s.HasLast && (s.LastKind != KFloat || (s.LastStale && s.LastStaleAmbig)) {
+		// (a series whose chunks were all truncated keeps the type of its last value in memory
+		// until it is garbage-collected, hence HasEver)
+		if p.V.Kind == KStale && (s.HasLast || s.HasEver) && (s.LastKind != KFloat || (s.LastStale && s.LastStaleAmbig)) {
 			for _, q := range a.Pending[i+1:] {
 				if q.S == p.S {
 					m.StaleBeforeHist[p.S] = true
@@ -363,7 +368,7 @@ func (m *Model) Commit(a *Appender) {
 		case InOrder:
 			sv := p.V
 			s.store(p.T, sv, true)
-			s.HasLast, s.LastT, s.Uncertain = true, p.T, false
+			s.HasLast, s.LastT, s.Uncertain, s.Ghost = true, p.T, false, false
 			if !s.HasEver || p.T > s.EverT {
 				s.HasEver, s.EverT = true, p.T
 			}
@@ -481,26 +486,27 @@ func (m *Model) Restarted(headInit bool, headMaxT, blocksMaxT int64) {
 		}
 		for t, p := range s.Pts {
 			if (p.WasOOO || p.OOOHead) && t >= m.Head.MinValid && (!s.HasLast || t > s.LastT) && len(p.Vals) > 0 {
-				s.HasLast, s.LastT, s.Uncertain = true, t, true
+				s.HasLast, s.LastT, s.Uncertain, s.Ghost = true, t, true, true
 				if s.LastStale = p.Vals[0].Kind == KStale; !s.LastStale {
 					s.LastKind, s.LastV = p.Vals[0].Kind, p.Vals[0]
 				}
 			}
 		}
 	}
-	resurrected := false
 	for _, s := range m.Series {
 		if s.HasEver && s.EverT >= m.Head.MinValid && (!s.HasLast || s.LastT < s.EverT) {
-			s.HasLast, s.LastT, s.Uncertain = true, s.EverT, true
-			resurrected = true
+			s.HasLast, s.LastT, s.Uncertain, s.Ghost = true, s.EverT, true, true
 		}
 	}
-	pseudo := resurrected // a series' newest in-order sample is an uncertain one
+	pseudo := false // some series' newest in-order sample is only possibly there
 	for _, s := range m.Series {
-		for t, p := range s.Pts {
-			if (p.WasOOO || p.OOOHead) && t >= m.Head.MinValid && s.HasLast && t == s.LastT && s.Uncertain {
-				pseudo = true
+		if s.HasLast && s.Ghost {
+			if !headInit {
+				// the implementation reports an empty head: nothing came back
+				s.HasLast, s.Ghost, s.Uncertain = false, false, false
+				continue
 			}
+			pseudo = true
 		}
 	}
 	maxT := int64(math.MinInt64)
